@@ -151,25 +151,70 @@ def round_table(rep, prog, rule="ROUND-TABLE"):
         rep.violation(rule, "kernel", "inner does not use div_ceil/rem_ceil/saturating_mul (calls: %s)" % sorted(calls), f.loc())
     adt = prog.adts.get("jiff::util::round::mode::RoundMode")
     names = {int(v["discr"]): v["name"] for v in adt["variants"]}
-    msw = None
-    for bi, b in enumerate(f.blocks):
-        t = b["term"]
-        if t["t"] == "switch":
-            d = T.operand(t["op"], 0, (bi, "term"))
-            if d[0] == "disc" and d[1][0] == "param" and d[1][1] == 1:
-                msw = (bi, t)
+
+    def mode_switch(fn_, T_, param):
+        for bi, b in enumerate(fn_.blocks):
+            t = b["term"]
+            if t["t"] == "switch":
+                d = T_.operand(t["op"], 0, (bi, "term"))
+                if d[0] == "disc" and d[1][0] == "param" and d[1][1] == param:
+                    return (bi, t)
+        return None
+    host, hT, args, by_return = f, T, None, False
+    msw = mode_switch(f, T, 1)
     if msw is None:
-        rep.violation(rule, "mode switch", "no switch on the mode parameter found", f.loc())
+        # the per-mode conditions may have been pulled into a predicate `fn(mode, ..) -> bool` whose result decides the
+        # `quotient += sign`: evaluate the table on that function, with its parameters replaced by the caller's terms
+        from ..term import subst_params
+        for bi, t in mir.iter_calls(f):
+            g = prog.fns.get("jiff::" + t.get("path", ""))
+            if g is None or g.get("ret") != "bool" or not t.get("args"):
+                continue
+            a_ = [T.at_call(bi, t, i) for i in range(len(t["args"]))]
+            mp = [i for i, x in enumerate(a_) if x[0] == "param" and x[1] == 1]
+            if not mp:
+                continue
+            gT = Terms(g)
+            m2 = mode_switch(g, gT, mp[0] + 1)
+            if m2 is not None:
+                host, hT, args, by_return, msw = g, gT, a_, True, m2
+                break
+    if msw is None:
+        rep.violation(rule, "mode switch", "no switch on the mode parameter found (neither in inner nor in a bool predicate it calls with the mode)", f.loc())
         return
-    add_blocks = {bi for bi, t in mir.iter_calls(f) if "AddAssign" in t.get("path", "")}
-    fin = [bi for bi, t in mir.iter_calls(f) if t.get("path", "").endswith("::saturating_mul")]
+    sub = (lambda c: subst_params(c, args)) if args is not None else (lambda c: c)
+    add_blocks = {bi for bi, t in mir.iter_calls(host) if "AddAssign" in t.get("path", "")}
+    fin = [bi for bi, t in mir.iter_calls(host) if t.get("path", "").endswith("::saturating_mul")]
+    if by_return:
+        # in the caller the predicate's result must be what guards the add
+        guarded = False
+        fcfg = mir.CFG(f)
+        from ..guards import guards as _guards
+        for bi, t in mir.iter_calls(f):
+            if "AddAssign" in t.get("path", ""):
+                guarded = any(c[0] == "call" and ("jiff::" + c[1]) == host.key and tr is True for (c, tr, _sb) in _guards(f, fcfg, T, bi))
+        if not guarded:
+            rep.violation(rule, "mode switch", "the predicate %s does not guard `quotient += sign` in inner" % host.path.split("::")[-1], f.loc())
+            return
     arms = dict(zip(msw[1]["vals"], msw[1]["targets"]))
     missing = set(names) - set(arms)
     if len(missing) == 1:
         arms[missing.pop()] = msw[1]["otherwise"]
+
+    def atom_value(c, a):
+        """truth value of condition term c under assignment a, or None"""
+        neg = False
+        while c[0] == "un" and c[1] == "Not":
+            c, neg = c[2], not neg
+        if c[0] == "const" and c[1] in (0, 1, True, False):
+            return bool(c[1]) != neg
+        at = _atom(c)
+        if at is None:
+            return None
+        return a[at] != neg
     for v, name in sorted(names.items()):
         if v not in arms:
-            rep.violation(rule, "mode " + name, "no arm for this mode", f.loc())
+            rep.violation(rule, "mode " + name, "no arm for this mode", host.loc())
             continue
         want = MODE_TABLE.get(name)
         bad = None
@@ -180,23 +225,38 @@ def round_table(rep, prog, rule="ROUND-TABLE"):
                 continue
             n_rows += 1
             b, hit, steps = arms[v], False, 0
+            ret_val = None
             while steps < 200:
                 steps += 1
                 if b in add_blocks:
                     hit = True
                 if b in fin:
                     break
-                t = f.blocks[b]["term"]
+                if by_return:
+                    for si, st_ in enumerate(host.blocks[b]["st"]):
+                        if st_["s"] == "=" and st_["lhs"] == {"l": 0}:
+                            rv = st_["rv"]
+                            if rv["k"] == "use":
+                                ret_val = atom_value(sub(hT.operand(rv["a"], pos=(b, si))), a)
+                            else:
+                                ret_val = atom_value(sub(hT.local(0, 0, (b, si + 1))), a)
+                            if ret_val is None:
+                                bad = "unrecognised returned condition %s" % show(sub(hT.operand(rv["a"], pos=(b, si))) if rv["k"] == "use" else rv, maxd=3)
+                    if bad:
+                        break
+                t = host.blocks[b]["term"]
+                if by_return and t["t"] == "call" and t.get("dest") == {"l": 0}:
+                    ct = ("call", t.get("path", ""), tuple(hT.at_call(b, t, i) for i in range(len(t.get("args", [])))))
+                    ret_val = atom_value(sub(ct), a)
+                    if ret_val is None:
+                        bad = "unrecognised returned condition %s" % show(sub(ct), maxd=3)
+                        break
                 if t["t"] == "switch":
-                    c = T.operand(t["op"], 0, (b, "term"))
-                    neg = False
-                    while c[0] == "un" and c[1] == "Not":
-                        c, neg = c[2], not neg
-                    at = _atom(c)
-                    if at is None:
+                    c = sub(hT.operand(t["op"], 0, (b, "term")))
+                    val = atom_value(c, a)
+                    if val is None:
                         bad = "unrecognised condition %s" % show(c, maxd=3)
                         break
-                    val = a[at] != neg
                     tgt = None
                     for vv, tg in zip(t["vals"], t["targets"]):
                         if vv == (1 if val else 0):
@@ -209,14 +269,19 @@ def round_table(rep, prog, rule="ROUND-TABLE"):
                     b = nx[0]
             if bad:
                 break
+            if by_return:
+                if ret_val is None:
+                    bad = "no returned value found on the path for %s" % {k: x for k, x in a.items() if x}
+                    break
+                hit = ret_val
             if hit != bool(want(a)):
                 bad = "for %s the code %s quotient+=sign but the table says %s" % (
                     {k: x for k, x in a.items() if x}, "executes" if hit else "skips", bool(want(a)))
                 break
         if bad:
-            rep.violation(rule, "mode " + name, bad, f.loc())
+            rep.violation(rule, "mode " + name, bad, host.loc())
         else:
-            rep.ok(rule, "mode " + name, how="%d consistent truth assignments agree" % n_rows)
+            rep.ok(rule, "mode " + name, how="%d consistent truth assignments agree%s" % (n_rows, " (predicate %s)" % host.path.split("::")[-1] if by_return else ""))
     rep.floor(rule + " modes", len(names), 9)
 
 
@@ -226,17 +291,28 @@ def noninterference(rep, prog, rule="NONINTERFERENCE"):
     f = prog.jiff("civil::datetime::DateTimeRound::round")
     T = Terms(f)
     n = 0
+    from ..term import subst_params
+    # the carry may be applied in a private helper of DateTimeRound (`carry_days(date, days)`): look one level down, with the
+    # helper's parameters replaced by what round passes
+    hosts = [(f, T, None)]
     for bi, t in mir.iter_calls(f):
-        if t.get("path", "").endswith("Date::checked_add"):
-            n += 1
-            span = T.at_call(bi, t, 1)
-            ycalls = sorted({x[1].split("::")[-1] for x in walk(span) if isinstance(x, tuple) and x and x[0] == "call"
-                             and re.search(r"::(year|year_ranged|era_year|iso_week_date)$", x[1])})
-            if ycalls:
-                rep.violation(rule, "day carry", "the span passed to Date::checked_add depends on %s of the date: %s"
-                              % (ycalls, show(span, maxd=7)[:260]), "%s:%s" % (t["span"]["file"], t["span"]["line"]))
-            else:
-                rep.ok(rule, "day carry", how=show(span, maxd=5)[:160])
+        g = prog.fns.get("jiff::" + t.get("path", ""))
+        if g is not None and g.path.startswith("civil::datetime::DateTimeRound::") and g.get("vis") != "pub" and g is not f:
+            hosts.append((g, Terms(g), [T.at_call(bi, t, i) for i in range(len(t.get("args", [])))]))
+    for (h, hT, args) in hosts:
+        for bi, t in mir.iter_calls(h):
+            if t.get("path", "").endswith("Date::checked_add"):
+                n += 1
+                span = hT.at_call(bi, t, 1)
+                if args is not None:
+                    span = subst_params(span, args)
+                ycalls = sorted({x[1].split("::")[-1] for x in walk(span) if isinstance(x, tuple) and x and x[0] == "call"
+                                 and re.search(r"::(year|year_ranged|era_year|iso_week_date)$", x[1])})
+                if ycalls:
+                    rep.violation(rule, "day carry", "the span passed to Date::checked_add depends on %s of the date: %s"
+                                  % (ycalls, show(span, maxd=7)[:260]), "%s:%s" % (t["span"]["file"], t["span"]["line"]))
+                else:
+                    rep.ok(rule, "day carry", how=show(span, maxd=5)[:160])
     rep.floor(rule + " checked_add sites", n, 1)
 
 
@@ -268,6 +344,10 @@ def pipelines(rep, prog, rule="PIPELINE"):
     f = prog.jiff("zoned::ZonedRound::round_days")
     T = Terms(f)
     r = T.returns()
+    # part of the computation (the day length, say) may live in a private helper of ZonedRound: look through one level
+    from ..term import inline_helpers
+    r = inline_helpers(r, prog, depth=1, pred=lambda g_: g_.path.startswith("zoned::ZonedRound::") and g_.get("vis") != "pub"
+                       and g_.path.rsplit("::", 1)[-1] not in ("round", "round_days"))
     oks = ok_payloads(r)
     start = TRY(C("Zoned::start_of_day", ZDT))
     one_day = C("Span::days_ranged", C("Span::new"), V("one"))
